@@ -3,9 +3,28 @@
    [mismatch_ids] compares with S (the oracle: plain UTF-16 unit lists); the comparison with I (the transcription
    of goja's representations) is [i_agrees], used by RunI.v to classify disagreements. *)
 From Coq Require Import List NArith ZArith Bool.
+From Coq Require Export Uint63.
 Import ListNotations.
 From Verif.C06 Require Export Model.
 Local Open Scope N_scope.
+
+(* unit / byte lists are written by the harness packed into primitive 63-bit integers (3 elements of 16 bits, or
+   2 of 21 bits for code points, element count in the top bits): elaborating a list of N numerals costs ~0.3 ms per
+   numeral, which dominated the run.  Used by the correspondence only, never by a theorem. *)
+Definition un (i : int) : N := Z.to_N (Uint63.to_Z i).
+Definition unpack16 (i : int) : list N :=
+  let c := un (i >> 48)%uint63 in
+  let a := un (i land 65535)%uint63 in
+  let b := un ((i >> 16) land 65535)%uint63 in
+  let d := un ((i >> 32) land 65535)%uint63 in
+  if c =? 1 then [a] else if c =? 2 then [a; b] else if c =? 3 then [a; b; d] else [].
+Definition P16 (l : list int) : list N := flat_map unpack16 l.
+Definition unpack21 (i : int) : list N :=
+  let c := un (i >> 42)%uint63 in
+  let a := un (i land 2097151)%uint63 in
+  let b := un ((i >> 21) land 2097151)%uint63 in
+  if c =? 1 then [a] else if c =? 2 then [a; b] else [].
+Definition P21 (l : list int) : list N := flat_map unpack21 l.
 
 (* one value: length + every charCodeAt; Export() bytes; and whether the value was interchangeable (===, Map key,
    object key, hash, both directions) with a fresh literal spelled with the same code units *)
